@@ -150,7 +150,16 @@ one_value(const struct cfg *c, uint64_t bits)
             }
             RegisterValue g;
             memset(&g, 0x77, sizeof g);
+            /* every fourth get behind a callback meets a device that serves the register's own words and refuses
+             * anything wider (its neighbours may be unimplemented, or react to being read) */
+            if (c->custom && (nset & 3u) == 1u) {
+                rt_cb_rwin_area = 0;
+                rt_cb_rwin_lo = r->addr - inst.d.area[0].base;
+                rt_cb_rwin_hi = rt_cb_rwin_lo + rt_tsize[c->type];
+                VH_COUNT("get from a device that serves register-shaped reads only");
+            }
             RegisterAccess ga = register_get(&inst.t, 1, &g);
+            rt_cb_rwin_area = -1;
             if (ga.code != REG_ACCESS_SUCCESS || (int)g.type != c->type || rt_bits(c->type, g.value) != bits)
                 vh_fail("get-differs", key, "%s: get code=%d type=%d bits=%016" PRIx64, ctx, ga.code, (int)g.type,
                         rt_bits(c->type, g.value));
@@ -454,6 +463,7 @@ harness_run(void)
     vh_require("typed access to a register in a write-only device area");
     vh_require("bad handle probed on a table with no registers");
     vh_require("set refused by the device behind the callback");
+    vh_require("get from a device that serves register-shaped reads only");
     vh_require("bad handle probed on a table with one register");
     static const char *req[] = { "checked set accepted", "unchecked set stored", "constraint violation refused",
                                  "non-finite float refused", "bad handle probed", "type mismatch refused",
